@@ -739,6 +739,34 @@ func registerLibHooks(e *Engine) {
 			return nil
 		}
 	}
+	// sync.Pool: the pool keeps what is put into it and hands it back last-in first-out (one of
+	// the behaviours the documentation allows, and the usual one); New is called on an empty pool
+	H["(*sync.Pool).Put"] = func(st *State, a []Value) Value {
+		k := "pool:" + lockKey(a[0])
+		cur, _ := st.scratch[k].(TupleV)
+		st.scratch[k] = append(append(TupleV{}, cur...), a[1])
+		return nil
+	}
+	H["(*sync.Pool).Get"] = func(st *State, a []Value) Value {
+		k := "pool:" + lockKey(a[0])
+		if cur, _ := st.scratch[k].(TupleV); len(cur) > 0 {
+			st.scratch[k] = append(TupleV{}, cur[:len(cur)-1]...)
+			return cur[len(cur)-1]
+		}
+		// the New field (second field of sync.Pool after noCopy/local...): read through the object
+		p, ok := a[0].(*PtrV)
+		if !ok || p.Obj == nil {
+			st.throwRuntime("nil", "nil sync.Pool")
+		}
+		if sv, ok := st.load(p).(*StructV); ok {
+			for _, f := range sv.F {
+				if fv, ok := f.(*FuncV); ok && !fv.IsNil() {
+					return st.Call(fv, nil, nil)
+				}
+			}
+		}
+		return &IfaceV{}
+	}
 	mkLock("(*sync.Mutex).Lock", func(st *State, k string) {
 		if held(st, k+":w") != 0 {
 			st.abort("deadlock", "Lock of a sync.Mutex that is already held (single goroutine)")
